@@ -10,7 +10,7 @@
 use std::cell::UnsafeCell;
 pub use std::sync::atomic::Ordering;
 
-use crate::verif_rt::{any_u64, any_usize_in, assume};
+use crate::verif_rt::{any_u64_suggest, any_usize_in, assume, hint_get, hint_set};
 
 const fn parse_k() -> usize {
     match option_env!("PROMETHEUS_VERIF_K") {
@@ -93,14 +93,24 @@ impl Cell {
         CELLS[NCELLS] = p;
         NCELLS += 1;
     }
-    unsafe fn guess(&self) {
+    unsafe fn guess(&self, ci: usize) {
         let v = &mut *self.v.get();
         let g = &mut *self.g.get();
         let mut r = 1;
         while r < K {
-            let x = any_u64() & self.mask;
+            // native witness search: the value this cell had at the end of round r-1 in the
+            // previous pass of the same trial is the only guess that can be consistent
+            let x = any_u64_suggest(hint_get(ci * K + r)) & self.mask;
             v[r] = x;
             g[r] = x;
+            r += 1;
+        }
+    }
+    unsafe fn record_hints(&self, ci: usize) {
+        let v = &*self.v.get();
+        let mut r = 0;
+        while r + 1 < K {
+            hint_set(ci * K + r + 1, v[r]);
             r += 1;
         }
     }
@@ -125,7 +135,7 @@ pub fn begin_register() {
 /// Phase 2: guess the initial value of every registered cell for rounds 1..K.
 pub fn begin_threads() {
     unsafe {
-        macro_rules! t { ($($i:expr),*) => { $( if $i < NCELLS { (*CELLS[$i]).guess(); } )* } }
+        macro_rules! t { ($($i:expr),*) => { $( if $i < NCELLS { (*CELLS[$i]).guess($i); } )* } }
         t!(0, 1, 2, 3, 4, 5, 6, 7, 8, 9, 10, 11, 12, 13, 14, 15);
         MODE = 2;
         ROUND = 0;
@@ -155,6 +165,11 @@ pub fn cas_fails(thread: usize) -> u32 {
 /// final state (last round) and no further scheduling choices are made.
 pub fn assume_consistent() {
     unsafe {
+        #[cfg(not(kani))]
+        {
+            macro_rules! h { ($($i:expr),*) => { $( if $i < NCELLS { (*CELLS[$i]).record_hints($i); } )* } }
+            h!(0, 1, 2, 3, 4, 5, 6, 7, 8, 9, 10, 11, 12, 13, 14, 15);
+        }
         macro_rules! t { ($($i:expr),*) => { $( if $i < NCELLS { (*CELLS[$i]).consistent(); } )* } }
         t!(0, 1, 2, 3, 4, 5, 6, 7, 8, 9, 10, 11, 12, 13, 14, 15);
         ROUND = K - 1;
